@@ -243,8 +243,9 @@ Fixpoint pts_from (i : Z) (vals : list (option num)) : list pt :=
   | Some v :: r => mkPt i v :: pts_from (i + 1) r
   end.
 
-(** numRef_xml / _val_tmpl: c:formatCode, c:ptCount val = len(values), one c:pt per
-    value that is not None, idx = its position. *)
+(** numRef_xml / _val_tmpl: c:formatCode (the number format, XML-escaped by the writer,
+    so any text survives), c:ptCount val = len(values), one c:pt per value that is not
+    None, idx = its position. *)
 Definition num_cache (fmt : str) (vals : list (option num)) : cache :=
   mkCache (Some (xml_norm fmt)) [Z.of_nat (length vals)] (pts_from 0 vals).
 
@@ -325,7 +326,7 @@ Definition has_cat_axis (ptag : N) : bool :=
     parsed): one plot, series idx = order = position.  Errors: unknown type
     (NotImplementedError) and data of the wrong family (AttributeError) are [OtherErr];
     pie without a series is [IndexErr]; non-uniform category depth is [ValueErr]. *)
-Definition write_core (ct : Z) (d : chart_data) : res chart :=
+Definition write (ct : Z) (d : chart_data) : res chart :=
   match writer_of ct with
   | None => Err OtherErr
   | Some (wk, ptag, pre, post) =>
@@ -369,23 +370,6 @@ Definition write_core (ct : Z) (d : chart_data) : res chart :=
                 end
       end
   end.
-
-(** The area, bar and line writers paste categories.number_format into the formatCode
-    attribute of c:dateAx/c:numFmt when the categories are dates; a double quote in it
-    ends the attribute value and the template no longer parses (XMLSyntaxError). *)
-Definition date_axis_breaks (ct : Z) (d : chart_data) : bool :=
-  match writer_of ct, d with
-  | Some (WCatPlain, ptag, _, _), DCat ((CatNode l _ :: _) as f) fmt _ =>
-      has_cat_axis ptag && is_date_label l
-      && match forest_depth f with
-         | Some 1%nat => memN 34%N (cats_number_format f fmt 1)
-         | _ => false
-         end
-  | _, _ => false
-  end.
-
-Definition write (ct : Z) (d : chart_data) : res chart :=
-  bind (write_core ct d) (fun c => if date_axis_breaks ct d then Err OtherErr else Ok c).
 
 (* ------------------------------------------------------------------ series order *)
 
